@@ -7,6 +7,7 @@ package clone
 // verif:bound C09 designed assemblies with 1..2 (quick) / 1..3 (thorough) junctions, 1..2 alternative fragments per slot (at most 4 fragments), every fragment supplied in either orientation, two input orders, an optional dead-end decoy; fragment interiors one symbolic base (ACGT) plus a fixed tag base each; junction labels distinct, non-palindromic and free of reverse-complement pairs
 // verif:bound C09 schedules at synchronisation-point granularity: designed-ring harness default run-to-block schedule (quick) plus LIFO mirror and 1 deviation for pools of at most 2 fragments (thorough); scheduling-independence harness on concrete pools of 1..3 fragments: default, LIFO mirror and all schedules deviating at <= 2 (quick) / 3 (thorough) of the first 24 choice points
 // verif:bound C09 termination: pools of 3 fragments whose overhangs close a cycle that excludes the seed; call depth / goroutine count as the termination obligation
+// verif:bound C09 two-simulations clause: a two-fragment ring ligated, then the same pool or a one-fragment self-closing pool ligated in the same process (symbolic interiors): each simulation returns its own ring
 // verif:bound C09 library clause: a concrete pool of 5 (quick) / 6 (thorough) junctions with 3 alternatives per slot (243 / 729 rings, 1215 / 4374 construct deliveries), mixed orientations; a closed computation executed by the engine (termination, count and distinctness of the rings; no symbolic input)
 // verif:assume C09 seqhash.Hash is executed from SSA with BLAKE3 as an assumed collision-free uninterpreted function (see C04/C05)
 // verif:bound C09 outside the claim: GOMAXPROCS, the Go scheduler, the race detector and pre-emption between synchronisation points; more than 3 junctions; the full GoldenGate pipeline (CutWithEnzymeByName + CircularLigate) is exercised for 1..2 parts with BsaI, linear or circular carriers at 4 rotations (quick) / every rotation (thorough)
@@ -237,6 +238,34 @@ func Harness_C09_Termination() {
 	vAssert(len(got) == 1, "one-ring")
 	if len(got) == 1 {
 		vAssert(cSameMolecule(got[0].Sequence, c09Junctions[0]+b+c09Junctions[1]+c), "the-ring-of-the-cycle")
+	}
+}
+
+// two simulations in one process: the second one returns its rings whatever the first one produced
+func Harness_C09_TwoSimulations() {
+	a, b := vBytes(1, "ACGT")+"A", vBytes(1, "ACGT")+"C"
+	pool1 := []Fragment{{a, c09Junctions[0], c09Junctions[1]}, {b, c09Junctions[1], c09Junctions[0]}}
+	pool2 := pool1
+	ring2 := c09Junctions[0] + a + c09Junctions[1] + b
+	if vChoice(2) == 1 { // a different pool sharing nothing / the same pool again
+		c := vBytes(1, "ACGT") + "G"
+		pool2 = []Fragment{{c, c09Junctions[0], c09Junctions[0]}}
+		ring2 = c09Junctions[0] + c
+	}
+	vTerminates(3000000)
+	var got1, got2 []Part
+	panicked := vPanics(func() {
+		got1 = CircularLigate(pool1)
+		got2 = CircularLigate(pool2)
+	})
+	vAssert(!panicked, "ligation-does-not-panic")
+	if panicked {
+		return
+	}
+	vAssert(len(got1) == 1, "first-simulation-returns-its-ring")
+	vAssert(len(got2) == 1, "second-simulation-returns-its-ring")
+	if len(got2) == 1 {
+		vAssert(cSameMolecule(got2[0].Sequence, ring2), "second-simulation-returns-its-ring")
 	}
 }
 
